@@ -493,12 +493,15 @@ pub fn install_quiet_panic_hook() {
             .location()
             .map(|l| format!(" at {}:{}", l.file(), l.line()))
             .unwrap_or_default();
-        LAST_PANIC.with(|p| *p.borrow_mut() = format!("{}{}", msg, loc));
+        // (try_with: the hook may run while the thread's thread-locals are being destroyed)
+        let _ = LAST_PANIC.try_with(|p| *p.borrow_mut() = format!("{}{}", msg, loc));
     }));
 }
 
 pub fn last_panic() -> String {
-    LAST_PANIC.with(|p| p.borrow().clone())
+    LAST_PANIC
+        .try_with(|p| p.borrow().clone())
+        .unwrap_or_else(|_| "panic during thread teardown".to_string())
 }
 
 /// Runs `f` and renders a panic as a result string.
